@@ -4,8 +4,27 @@ from vlib import Failure, compare, finish, unhexs
 COQ_FILES = ["Bytes.v", "Tables.v", "ParserModel.v", "BuilderModel.v", "ConnModel.v", "ParserProofs.v", "ConnProofs.v", "GrammarProofs.v"]
 
 
+# The kind of a transport error is not part of the model (every failed read is "the transport failed"), and what the application
+# does between an interrupted receive and its retry (send a command) is not either: the implementation gets both, varied
+# deterministically from the case text, and must answer as the model does for the undecorated case.
+ERR_KINDS = ["other", "ueof", "reset", "aborted", "brokenpipe", "timedout", "invaliddata", "notconnected", "interrupted", "oom"]
+
+
+def decorate(case):
+    import zlib
+    t = case.split(" ")
+    if t[0] not in ("recv", "conn") or len(t) < 4:
+        return case
+    h = zlib.crc32(case.encode())
+    if t[3] == "err":
+        t[3] = "err:" + ERR_KINDS[h % len(ERR_KINDS)]
+    if (h >> 8) % 2:
+        t = t[:4] + [("!s" if x == "!" else x) for x in t[4:]]
+    return " ".join(t)
+
+
 def run_cases(ctx, cases):
-    impl = ctx.run_impl(cases)
+    impl = ctx.run_impl([decorate(c) for c in cases])
     model = ctx.run_model(cases) if ctx.model_ok else None
     dis = compare(cases, impl, model) if model is not None else []
     return impl, model, dis
